@@ -115,8 +115,17 @@ def _impl(case, vec_x, vec_y, classes=None):
             out.update(spec.extras(case, op))
     except Exception as e:
         return {"error": "apply:" + _errkind(e)}, op
-    if problems:
-        out["problems"] = sorted(set(f"{k}@{m}" for k, m in problems))
+    # side conditions of the property as part of the compared surface (the model is pure and lives on `rows`)
+    out["side"] = {"input_unchanged": not any(k == "mutated-input" for k, _ in problems),
+                   "output_on_declared_target": not any(k == "target-identity" for k, _ in problems)}
+    try:
+        import nifty.cl as ift
+        if isinstance(op.domain, ift.DomainTuple):
+            out["dshapes"] = [[int(v) for v in d.shape] for d in op.domain]
+        if isinstance(op.target, ift.DomainTuple):
+            out["tshapes"] = [[int(v) for v in d.shape] for d in op.target]
+    except Exception as e:
+        return {"error": "apply:" + _errkind(e)}, op
     return out, op
 
 
@@ -130,9 +139,10 @@ def _canon_model(m, spec, case):
             ent = [e for e in ent if e[1] % 2 == 0]
         modes[k] = U.densify_model(ent)
     out["modes"] = modes
-    for k in ("Ax", "AHy", "wgt", "tshapes", "tsizes"):
+    for k in ("Ax", "AHy", "wgt", "tshapes", "dshapes", "tsizes"):
         if k in m:
             out[k] = m[k]
+    out["side"] = {"input_unchanged": True, "output_on_declared_target": True}
     for k in getattr(spec, "drop_extras", lambda: [])():
         out.pop(k, None)
     return out
@@ -359,6 +369,10 @@ def run_table(ctx, classes, driver, per_class, per_mal, pid):
         cm = _canon_model(m, spec, case)
         if "error" not in impl and "AHy" not in impl:
             cm.pop("AHy", None)
+        if "error" not in impl:
+            for k in ("dshapes", "tshapes"):          # declared shapes are compared where the class model provides them
+                if k not in cm:
+                    impl.pop(k, None)
         ctx.stat("cls:" + case["cls"])
         ctx.stat("dtype:" + case.get("dtype", "f"))
         if "error" in impl:
